@@ -64,6 +64,12 @@ def gen_file(rng, with_config=None, ecc=True):
             blocks.append(f"u{hx(code)}:{ver}")
             if rng.random() < 0.5:
                 encs.append(f"S{hx(code)}")
+    # encryptors that belong to other recipients: ECC keys of other selectors, in any order (a security-code encryptor
+    # with another code is not a "matching decryptor": the update block has no selector, a wrong code is a format error)
+    if rng.random() < 0.4:
+        used = {int(b[1:]) for b in blocks if b.startswith("e")}
+        for sel2 in rng.sample([x for x in range(4) if x not in used], rng.choice([1, 1, 2])):
+            encs.append(f"D{sel2}:{gen_scalar(rng)}")
     rng.shuffle(encs)
     comps = g.gen_comps(rng, 300, 3)
     if with_config or (with_config is None and rng.random() < 0.6):
